@@ -1074,7 +1074,14 @@ class Instrument:
                 rec["orders"] = [[x.name for x in e.free_symbols] for _, e in deff[3]]
             except Exception as e:  # not modelled (e.g. quantum hybrid values)
                 rec = None
-            r = orig_bf(env_self, deff)
+            try:
+                r = orig_bf(env_self, deff)
+            except Exception as e:
+                # the definition is refused (a name of a type / a reserved name): the model must refuse it too
+                if rec is not None:
+                    rec["error"] = type(e).__name__
+                    log.records.append(rec)
+                raise
             if rec is not None:
                 try:
                     rec["after"] = [lf_json(d) for d in env_self.defs]
@@ -1567,72 +1574,6 @@ def attribute_names(ctx, case, oc):
     return [active[fl] for fl in implicated]
 
 
-# --------------------------------------------------------------------------- attribution: a definition under a name the library dispatches on
-#
-# One open finding is about definitions whose name the library gives a meaning of its own BEFORE it looks at the
-# definitions of the environment: the rewriter (ast2ast visit_Call: len, max, min, sum, any, all, ord, chr, print,
-# range), translate_expression (int, float, <type name>(constant)) and Env.bind_function, which drops a definition
-# called like a type without a word.  A failing case is that finding only if the quirk-oracle - the caller's source
-# with every definition of that name REMOVED and the name bound to the library's meaning of it, executed by CPython -
-# predicts the code's whole truth table bit for bit.
-
-SHADOW_FINDING = "C07-definition-named-like-builtin-ignored"
-
-
-def shadow_meaning(f):
-    """the library's own meaning of a call of the name `f` (None: it has none that yields a value)"""
-    import re
-    if f in ("len", "max", "min", "sum", "any", "all", "abs"):
-        # (abs: only ConstantFolder knows it - a call on constants is folded; a call on anything else reaches the
-        # user's definition and is not a failing case)
-        return dict(len=len, max=max, min=min, sum=sum, any=any, all=all, abs=abs)[f]
-    if f in ("ord", "chr", "int", "float"):
-        return lambda v: v
-    m = re.fullmatch(r"Qint(\d+)", f)
-    if m:
-        return lambda v, n=int(m.group(1)): int(v) % (2 ** n)
-    return None
-
-
-def shadow_python_table(case):
-    f = case["history"]["f"]
-    lib = shadow_meaning(f)
-    if lib is None:
-        return None
-    try:
-        tree = ast.parse(case["caller"])
-        top = tree.body[0]
-        top.body = [st for st in top.body if not (isinstance(st, ast.FunctionDef) and st.name == f)]
-        src = ast.unparse(ast.fix_missing_locations(tree)) + "\n"
-        ns = py_namespace()
-        for c in case["callees"]:
-            if c["name"] != f:
-                oexec(c["src"], ns)
-                ns[c["name"]] = wrapped(ns[c["name"]], c["ret"])
-        ns[f] = lib
-        oexec(src, ns)
-        return {bitstr(b): bitstr(o) for b, o in table_of_python(ns["caller"], case["params"], case["ret"])}
-    except Exception:
-        return None
-
-
-def attribute_shadow(ctx, case, oc):
-    """[finding id] when the failing case is exactly 'the definitions called like a builtin / a type were ignored'"""
-    h = case.get("history")
-    code = (oc.get("fail") or {}).get("code_table")
-    if not h or not code or (oc.get("failed") or {}).get("name") != "caller":
-        return None
-    if not any(f["id"] == SHADOW_FINDING and f.get("status", "open") == "open" and f.get("_active") for f in ctx.findings):
-        return None
-    # trigger: the case defines the name itself (inline or in defs=), and the library has a meaning of its own for it
-    if h["bindings"] < 1:
-        return None
-    predicted = shadow_python_table(case)
-    if predicted is None or predicted != code:
-        return None
-    return [SHADOW_FINDING]
-
-
 # --------------------------------------------------------------------------- model side
 
 
@@ -1677,6 +1618,8 @@ def reply_matches(rec, rep, stats):
     if "driver_error" in rep:
         return False
     if rec["op"] == "bind":
+        if "error" in rec or "error" in rep:
+            return rep.get("error") == rec.get("error")
         m, c = rep["defs"], rec["after"]
         return len(m) == len(c) and all(fun_equal(x, y, stats) for x, y in zip(m, c))
     if rec["op"] == "call":
@@ -1698,6 +1641,8 @@ def replies_same(op, a, b):
     if "driver_error" in a or "driver_error" in b:
         return False
     if op == "bind":
+        if "error" in a or "error" in b:
+            return a.get("error") == b.get("error")
         return len(a["defs"]) == len(b["defs"]) and all(fun_equal(x, y, stats) for x, y in zip(a["defs"], b["defs"]))
     if op == "call":
         if ("ok" in a) != ("ok" in b):
@@ -1775,8 +1720,6 @@ def check_cases(ctx, res, cases, bucket):
         if oc["status"] == "fail":
             fids = [finding_of_flag(ctx, fl) for fl in sorted(implicated)]
             named = attribute_names(ctx, case, oc) if (all_match and not implicated) else None
-            if not named and all_match and not implicated:
-                named = attribute_shadow(ctx, case, oc)
             if named:
                 for fid in named:
                     res.known(fid)
